@@ -203,6 +203,8 @@ impl Expr {
             Expr::Value(Value::Ident(ident)) => Some(ident),
             Expr::Index { lhs_raw, .. } => lhs_raw.root_ident(),
             Expr::DotLookup { lhs, .. } => lhs.root_ident(),
+            // `(get c).x += 1` writes through `c` just like `c.x += 1`
+            Expr::UnaryUnwrap { value, .. } => value.root_ident(),
             _ => None,
         }
     }
